@@ -92,6 +92,19 @@ def gen_set(rnd, n):
         rules[j].tags = list(rules[j].tags) + ['{ref}']
         if rnd.random() < .5:
             rules[-1].lets = list(rules[-1].lets) + [('ref', '"last-rule"')]
+    if n >= 2 and rnd.random() < .2:
+        # a top-level variable that is a bare generator over supplemental rows, read by several rules: each of them sees all of it, whatever the order
+        rf.variables = list(rf.variables) + [('matched', rnd.choice(['(r for r in rows if r.qty >= 0)', '(r.amt for r in orders)']))]
+        for r in rnd.sample(rules, rnd.randint(2, n)):
+            r.match = '(%s) and %s' % (r.match, rnd.choice(['len([m for m in matched]) >= 1', 'sum(1 for m in matched) > 0', 'any(matched)']))
+    if n >= 2 and rnd.random() < .15:
+        # only DESCRIPTION patterns in the match texts; the amount condition sits in a top-level variable (same description, different amounts!)
+        w = rnd.choice(['UBER', 'NETFLIX', 'COSTCO', 'STAR'])
+        rf.variables = list(rf.variables) + [('is_bulk', 'amount > %s' % rnd.choice(['50', '100', '150']))]
+        for i, r in enumerate(rules):
+            r.match, r.lets, r.priority = cond(rnd, kinds=[], words=[w, w[:2], w[:3]]), [], None
+        rules[0].match = 'contains("%s") and contains("%s") and is_bulk' % (w, w[:2])
+        rules[-1].match = 'contains("%s")' % w[:3]
     if n >= 2 and rnd.random() < .25:
         # a rule re-binds a GLOBAL variable with let: - the new value is that rule's alone, whatever the order of the rules
         rf.variables = list(rf.variables) + [('lim', rnd.choice(['500', '99.99', '1e9']))]
